@@ -69,6 +69,7 @@ FS0 == [keydir  |-> [m \in Model |-> FALSE],      \* <key>/ and <key>/.pharmpy
         link    |-> [n \in Names |-> "none"],     \* models/<name> -> key
         ann     |-> [n \in Names |-> "none"],     \* annotations: name -> description
         loghdr  |-> "absent",                     \* log.csv: absent | empty | ok (header line written)
+        logtmp  |-> FALSE,                        \* log.tmp exists (ONE name for every constructor, no lock)
         loglines |-> <<>>]                        \* appended lines; "TORN" = a partial line
 
 Init == /\ fs = FS0 /\ proc = [p \in Proc |-> "up"] /\ cur = [p \in Proc |-> OpenOp]
@@ -136,6 +137,8 @@ Finish(p, l, out) ==
                                                           \E x \in S.interrupted : DataOf[x] = DataOf[o.m]>>}
          [] o.op = "Log" -> /\ S' = LogUpdate(S, o.g, out)
                             /\ viol' = IF LogVerdict(out) = "ok" THEN viol ELSE viol \cup {<<"L", "log", out, FALSE>>}
+         [] o.op = "Open" -> /\ S' = S     \* the constructor of a context must work (ReopenVerdict)
+                             /\ viol' = IF ReopenVerdict(out) = "ok" THEN viol ELSE viol \cup {<<"I", "open", out, FALSE>>}
          [] OTHER -> UNCHANGED <<S, viol>>
 
 \* path locks (fcntl): guards only; a waiting process simply does not move
@@ -151,14 +154,18 @@ InitDirs == \E p \in Proc :
                            ELSE IF "InPlaceLogHeader" \in Legacy THEN "OpenLogHeader" ELSE "OpenLogTmp")
 \* -- as it is now: header written to log.tmp, renamed to log.csv
 OpenLogTmp == \E p \in Proc :
-    /\ Running(p, "Open", "OpenLogTmp") /\ UNCHANGED fs /\ Vol(p, "openf", "tmp") /\ Step(p, "OpenLogTmp", "CloseLogTmp")
+    /\ Running(p, "Open", "OpenLogTmp") /\ fs' = [fs EXCEPT !.logtmp = TRUE] /\ Vol(p, "openf", "tmp")
+    /\ Step(p, "OpenLogTmp", "CloseLogTmp")
 CloseLogTmp == \E p \in Proc :
     /\ Running(p, "Open", "CloseLogTmp") /\ UNCHANGED fs /\ Vol(p, "openf", "none") /\ Step(p, "CloseLogTmp", "RenameLog")
 RenameLog == \E p \in Proc :
     /\ Running(p, "Open", "RenameLog")          \* tmp_path.replace(log_path): the file appears complete
-    \* (the is_file() test was made at InitDirs: a second constructor racing with the first replaces a log that may
-    \*  already hold lines - only reachable with two processes)
-    /\ fs' = [fs EXCEPT !.loghdr = "ok", !.loglines = <<>>] /\ UNCHANGED vol /\ Step(p, "RenameLog", "InitCommon")
+    \* (the is_file() test was made at InitDirs and log.tmp is the same path for every constructor: of two racing
+    \*  constructors the second finds its temporary file gone - only reachable with two processes)
+    /\ IF fs.logtmp
+       THEN /\ fs' = [fs EXCEPT !.loghdr = "ok", !.loglines = <<>>, !.logtmp = FALSE] /\ UNCHANGED vol
+            /\ Step(p, "RenameLog", "InitCommon")
+       ELSE UNCHANGED fs /\ Finish(p, "RenameLog", "error:FileNotFoundError")
 \* -- before repair C16-F5: open(log.csv, 'w'), then write the header
 OpenLogHeader == \E p \in Proc :
     /\ Running(p, "Open", "OpenLogHeader")
@@ -402,6 +409,8 @@ InvD == Quiescent => \A m \in S.committed : LetterA(m) = "ok"                   
 InvDOther == Quiescent => \A m \in S.committed \ S.interrupted : LetterA(m) = "ok"          \* ... of keys never interrupted themselves
 InvI == \A v \in viol : v[1] # "I"                                                        \* isolation of failures
 InvIOther == \A v \in viol : v[1] = "I" => v[3] = "error:StopIteration"                      \* a second kind of (I) counterexample
+InvIOpen == \A v \in viol : ~(v[1] = "I" /\ v[2] = "open")                                    \* (I) for constructors (two processes)
+InvIStore == \A v \in viol : ~(v[1] = "I" /\ v[2] # "open")                                   \* (I) for stores
 InvLog == Quiescent => ReadLogVerdict(S, WouldReadLog.out, WouldReadLog.lines) = "ok"     \* log append-only, verbatim
 \* the log as far as process death without torn append is concerned (a torn last LINE is finding C16-F6)
 InvLogNoTorn == (Quiescent /\ \A i \in 1..Len(fs.loglines) : fs.loglines[i] # "TORN")
